@@ -22,6 +22,7 @@ LEVEL_TEXT = (
     "`idx == len(grid)`); digitize_data writes column i of a fresh array from get_closest(param_grid[i], data[:, i]) "
     "for every i in range(data.shape[1]) and returns that array. Decides 'returns an element of that column's grid, "
     "element-wise, without IndexError' - NOT which element: nearest-ness, mid-points and idempotence are numerical."
+    " (R4) a structural necessary condition of nearest-ness IS decided: the step back to the previous element is taken on an exact comparison of the two neighbour distances (previous closer), never on a tolerance."
     " The output buffer's dtype must not be inherited from the data (an integer input would truncate the snapped values); when the snapping is delegated to helpers the front end cannot read, the element verdicts are withdrawn (undecided) and the dtype / searchsorted-side rules stay armed."
 )
 TECHNIQUE = "AST/reaching-definitions provenance rule + clamp idiom table"
@@ -34,6 +35,7 @@ def run(ctx: Context) -> None:
     ctx.rule(r1_r3_get_closest)
     ctx.rule(r2_digitize)
     ctx.rule(dtype_rule)
+    ctx.rule(r4_nearest)
 
 
 def r1_r3_get_closest(ctx: Context) -> None:
@@ -191,6 +193,124 @@ def _masked_decrement_covers_end(f: FuncInfo, n, idx: str, len_forms: set[str]) 
                     if (src(l) == idx and str(n.rat(r)) in len_forms) or (src(r) == idx and str(n.rat(l)) in len_forms and isinstance(d.ops[0], ast.Eq)):
                         return True
     return False
+
+
+TOLERANT = ("isclose", "allclose", "finfo", "spacing", "nextafter")
+
+
+def _conjuncts(e: ast.expr) -> list[ast.expr]:
+    if isinstance(e, ast.BinOp) and isinstance(e.op, ast.BitAnd):
+        return _conjuncts(e.left) + _conjuncts(e.right)
+    if isinstance(e, ast.Call) and (dotted(e.func) or "").split(".")[-1] == "logical_and":
+        out = []
+        for a in e.args:
+            out.extend(_conjuncts(a))
+        return out
+    return [e]
+
+
+def r4_nearest(ctx: Context) -> None:
+    """Where the search steps back to the previous element is decided by an *exact* comparison of the two candidate distances
+    (previous strictly or weakly closer): a necessary condition of 'an element at minimal distance'.  Only the masked-decrement
+    idiom is read; any other way of choosing between the two neighbours leaves the rule undecided."""
+    f = ctx.func(GC)
+    if len(f.params) < 2:
+        raise AnalysisError("anchor vanished: get_closest(sorted_array, values)")
+    grid, values = f.params[0], f.params[1]
+    ss = [s for s in walk_scope(f.node) if isinstance(s, (ast.Assign, ast.AnnAssign)) and isinstance(s.value, ast.Call) and (dotted(s.value.func) or "").split(".")[-1] == "searchsorted"]
+    if not ss:
+        raise AnalysisError("cannot find the local holding the searchsorted result in get_closest")
+    tg = ss[0].target if isinstance(ss[0], ast.AnnAssign) else ss[0].targets[0]
+    if not isinstance(tg, ast.Name):
+        raise AnalysisError("cannot find the local holding the searchsorted result in get_closest")
+    idx = tg.id
+    from ..util import unread_helpers
+    if unread_helpers(ctx.prog, f):
+        raise AnalysisError(f"{f.loc(f.node)}: get_closest chooses between the neighbours in helpers that could not be read in place")
+    n = normaliser(ctx.prog, f, inline_locals=False)
+    len_forms = {str(n.rat(parse_expr(t))) for t in (f"len({grid})", f"{grid}.shape[0]", f"{grid}.size")}
+    assigns: dict[str, list[ast.expr]] = {}
+    for s_ in walk_scope(f.node):
+        if isinstance(s_, (ast.Assign, ast.AnnAssign)) and s_.value is not None:
+            for t in ([s_.target] if isinstance(s_, ast.AnnAssign) else s_.targets):
+                if isinstance(t, ast.Name):
+                    assigns.setdefault(t.id, []).append(s_.value)
+
+    def expand(e: ast.expr, depth: int = 0) -> ast.expr:
+        """Locals bound once are read as their definition (masks and distances are usually named)."""
+        if isinstance(e, ast.Name) and e.id not in (grid, values, idx) and len(assigns.get(e.id, [])) == 1 and depth < 6:
+            return expand(assigns[e.id][0], depth + 1)
+        return e
+
+    def offset(ix: ast.expr) -> int | None:
+        """-1 for (a clamped) idx - 1, 0 for (a clamped) idx, None otherwise."""
+        ix = expand(ix)
+        if isinstance(ix, ast.Call) and (dotted(ix.func) or "").split(".")[-1] in ("maximum", "minimum", "clip") and ix.args:
+            inner = [a for a in ix.args if any(isinstance(x, ast.Name) and x.id == idx for x in ast.walk(expand(a)))]
+            if len(inner) != 1:
+                return None
+            return offset(inner[0])
+        from ..poly import Rat, p_atom
+        try:
+            c = (n.rat(ix) - Rat(p_atom(idx))).const()
+        except Exception:  # noqa: BLE001
+            return None
+        return int(c) if c is not None and c in (0, -1) else None
+
+    def distance(e: ast.expr) -> int | None:
+        """offset of the neighbour whose distance from the value `e` is: |values - grid[neighbour]|."""
+        e = expand(e)
+        if isinstance(e, ast.Call) and (dotted(e.func) or "").split(".")[-1] in ("fabs", "abs", "absolute") and len(e.args) == 1:
+            d = expand(e.args[0])
+            if isinstance(d, ast.BinOp) and isinstance(d.op, ast.Sub):
+                for a, b in ((d.left, d.right), (d.right, d.left)):
+                    a, b = expand(a), expand(b)
+                    if isinstance(a, ast.Name) and a.id == values and isinstance(b, ast.Subscript) and isinstance(b.value, ast.Name) and b.value.id == grid:
+                        return offset(b.slice)
+        return None
+
+    decs = [s_ for s_ in walk_scope(f.node) if isinstance(s_, ast.AugAssign) and isinstance(s_.op, ast.Sub) and isinstance(s_.value, ast.Constant) and s_.value.value == 1
+            and isinstance(s_.target, ast.Subscript) and isinstance(s_.target.value, ast.Name) and s_.target.value.id == idx]
+    if len(decs) != 1:
+        raise AnalysisError(f"{f.loc(f.node)}: get_closest does not choose between the neighbours by one masked decrement `{idx}[mask] -= 1`; the nearest-neighbour rule is not decided")
+    dec = decs[0]
+    n_cmp = 0
+    for d in _disjuncts(expand(dec.target.slice)):
+        d = expand(d)
+        if isinstance(d, ast.Compare) and len(d.ops) == 1 and isinstance(d.ops[0], (ast.Eq, ast.GtE)) and \
+                ((src(d.left) == idx and str(n.rat(d.comparators[0])) in len_forms) or (src(d.comparators[0]) == idx and str(n.rat(d.left)) in len_forms)):
+            continue  # beyond the last element: the previous one is the only candidate
+        parts = [expand(c) for c in _conjuncts(d)]
+        cmps = []
+        for c in parts:
+            tol = [x for x in ast.walk(c) if isinstance(x, ast.Call) and (dotted(x.func) or "").split(".")[-1] in TOLERANT]
+            if tol:
+                ctx.fail("R4.nearest", "get_closest:step-back:tolerance", f"the step back to the previous element also depends on `{src(c)[:70]}`: with a tolerance in the choice, a value whose "
+                         "previous neighbour is strictly closer (by less than the tolerance) is snapped to the farther element", f, dec)
+                continue
+            if isinstance(c, ast.Compare) and len(c.ops) == 1 and isinstance(c.ops[0], (ast.Lt, ast.LtE, ast.Gt, ast.GtE)):
+                l, r = distance(c.left), distance(c.comparators[0])
+                if l is not None and r is not None:
+                    cmps.append((c, l, r))
+                    continue
+            if isinstance(c, ast.Call) and (dotted(c.func) or "").split(".")[-1] in ("less", "less_equal", "greater", "greater_equal") and len(c.args) == 2:
+                l, r = distance(c.args[0]), distance(c.args[1])
+                if l is not None and r is not None:
+                    fn = (dotted(c.func) or "").split(".")[-1]
+                    cmps.append((ast.Compare(left=c.args[0], ops=[ast.Lt() if fn.startswith("less") else ast.Gt()], comparators=[c.args[1]]), l, r))
+                    continue
+            if isinstance(c, ast.Compare) and len(c.ops) == 1 and src(c.left) == idx and isinstance(c.comparators[0], ast.Constant) and \
+                    ((isinstance(c.ops[0], ast.Gt) and c.comparators[0].value == 0) or (isinstance(c.ops[0], ast.GtE) and c.comparators[0].value == 1) or (isinstance(c.ops[0], ast.NotEq) and c.comparators[0].value == 0)):
+                continue  # index guard implied by the clamp
+            raise AnalysisError(f"{f.loc(dec)}: cannot read the condition `{src(c)[:70]}` of the step back in get_closest")
+        for c, l, r in cmps:
+            n_cmp += 1
+            less = isinstance(c.ops[0], (ast.Lt, ast.LtE))
+            prev_side_smaller = (l == -1 and r == 0 and less) or (l == 0 and r == -1 and not less)
+            ctx.check(prev_side_smaller, "R4.nearest", "get_closest:step-back:comparison", "the search steps back exactly where the previous element is (strictly or weakly) closer",
+                      f"the step back is taken when `{src(c)[:80]}`, which is not 'distance to the previous element < distance to the element at the insert position'", f, dec)
+    if n_cmp == 0 and not any(x.rule == "R4.nearest" for x in ctx.findings):
+        raise AnalysisError(f"{f.loc(dec)}: no comparison of the two neighbour distances found in the mask of the step back; the nearest-neighbour rule is not decided")
 
 
 def _disjuncts(e: ast.expr) -> list[ast.expr]:
